@@ -13,7 +13,7 @@ def run(rep, tier, seed):
     T.model_check(rep, "C01", tier)
     if T.model_finding_demo(rep, "C01", "R13", "CallbackProtocol"):
         rep.violation({"check": "mc-demo", "invariant": "CallbackProtocol"}, {})
-    T.standard_campaign(rep, "C01", tier, seed)
+    T.standard_campaign(rep, "C01", tier, seed)      # every generation table, incl. ask_linger (busy_trial_ids with lingering stops)
     from harness.props import real_sched
     real_sched.campaign(rep, "C01", tier, seed)
     real_sched.campaign_early_removal(rep, "C01", tier, seed, n=24 if tier == "quick" else 240)
